@@ -1282,3 +1282,21 @@ package mcp
 //@   init newResponderFactory, withFactoryStatelessMode, withResponderSSEEnabled
 //@   frozen[C13]
 //@
+//@ type SSEServer
+//@   init NewSSEServer, With*
+//@   frozen[C13] except responses
+//@ type StdioServer
+//@   init NewStdioServer, With*
+//@   frozen[C13] except responses, notificationHandlers
+//@ type Server
+//@   init NewServer, initComponents, With*
+//@   frozen[C13]
+//@ type stdioServerInternal
+//@   frozen[C13]
+//@ type toolManager
+//@   frozen[C13] except toolsOrder
+//@ type promptManager
+//@   frozen[C13] except promptsOrder
+//@ type resourceManager
+//@   frozen[C13] except resourcesOrder
+//@
